@@ -40,7 +40,7 @@ where
   pub(crate) iss: Cow<'presentation, Url>,
 
   /// Represents the issuanceDate encoded as a UNIX timestamp.
-  #[serde(flatten)]
+  #[serde(flatten, deserialize_with = "deserialize_issuance_date")]
   pub(crate) issuance_date: Option<IssuanceDateClaims>,
 
   /// Represents the id property of the credential.
@@ -54,6 +54,14 @@ where
 
   #[serde(flatten, skip_serializing_if = "Option::is_none")]
   pub(crate) custom: Option<Object>,
+}
+
+/// A flattened `Option` turns every error inside it into `None`; a malformed `iat`/`nbf` must not be dropped that way.
+fn deserialize_issuance_date<'de, D>(deserializer: D) -> core::result::Result<Option<IssuanceDateClaims>, D::Error>
+where
+  D: serde::Deserializer<'de>,
+{
+  IssuanceDateClaims::deserialize(deserializer).map(Some)
 }
 
 impl<'presentation, CRED, T> PresentationJwtClaims<'presentation, CRED, T>
